@@ -98,7 +98,7 @@ def rule_ctor(E, R):
     hc = E.hir("range_set::RangeSet::contains")
     if hc:
         S = sem.Sem(E, hc)
-        t = tail(hc["body"])
+        t = fn_result(hc)
         ok = t.get("k") == "MethodCall" and t["m"] == "is_ok"
         clo = None
         for c in exprs(hc["body"], "MethodCall"):
@@ -160,7 +160,7 @@ def rule_families(E, R):
                      (r"compile_with_compiler::Contains as ast::index_expr::Compare<U>>::compare$", "byte strings use BTreeSet::contains")):
         hs = E.hirs(rx)
         if len(hs) == 1:
-            t = tail(hs[0]["body"])
+            t = fn_result(hs[0])
             R.check(t.get("k") == "MethodCall" and t["m"] == "contains", rule, norm(hs[0]["path"]), what, where=hs[0]["span"])
         else:
             R.cannot(rule, rx, "anchor not found")
